@@ -63,7 +63,13 @@ MANIFEST = {
                   "conditionals, substitutions, context values; half of the models are compiled as SESSIONS in one Python "
                   "process (renderings, then variants sharing the equation text but with reordered declarations, extra names "
                   "declared first, another context for the identical source text, another substitution body, another kind), so "
-                  "that state leaking from one compilation into the next is seen.",
+                  "that state leaking from one compilation into the next is seen.  Compiled functions (model/Makers.v, shapes "
+                  "and module-level state of makers.py / aldi/adaptations.py / PlainEquator._create_function regenerated on every "
+                  "run, a new module-level table fails closed): in every session of make_function calls each call returns the "
+                  "function, text and globals determined by its own (text, context); a user function name resolves to the object "
+                  "of that call's context (adaptations win); remake_function gives the same function; a table keyed by the text "
+                  "alone is refuted.  Tie: sequences of make_function / remake_function calls sharing texts and context keys, "
+                  "observed after the whole session (text, globals entries by object identity), equal the model exactly.",
     "level_note": "partial: the character-level regular expressions, the two PEG grammars (parsimonious), Jinja, white space and "
                   "comments are glue exercised by the correspondence, not modelled; the renderer of the harness and Python's ast "
                   "are trusted for the text <-> tree reading; semantic theorems are over a commutative ring (no rounding); "
